@@ -568,6 +568,7 @@ apply_scripts(Ctx& x, const StreamCfg cfg[2])
         cs.gap_every = c.gap_every;
         cs.vary = c.avg ? 0 : c.vary;
         cs.stop_yields = (c.period_us / 100) % 2 == 1 || c.period_us == 0; // a stop that takes a while (scheduling point inside)
+        cs.stop_ms = (c.w + c.nframes) % 2 ? 25.0f : 5.0f;                  // ... longer than the sink's 10 ms polling period, or shorter
         vmock::StoreScript& ss = vmock::hub.store_script[c.store];
         ss = vmock::StoreScript();
         ss.delay_ms = c.store_delay_ms;
@@ -1422,7 +1423,7 @@ client_main(void*)
                             break;
                         case 1: do_stop_now(x); break;
                         default:
-                            if ((op.t.d >> 5) % 4 == 0)
+                            if ((op.t.d >> 5) % 2 == 0)
                                 do_poll_done_without_stop(x);
                             else
                                 do_stop_when_done(x);
